@@ -20,9 +20,10 @@ def sh(cmd, timeout=3000):
 
 
 def baseline():
-    rc, out = sh("cargo nextest run --workspace --no-fail-fast --offline 2>&1 | tail -400")
-    m = re.search(r"(\d+) tests run: (\d+) passed, (\d+) failed", out)
-    fails = sorted(set(re.findall(r"^\s+FAIL \[[^\]]*\] (?:\(\S+\) )?(\S+ \S+)", out, re.M)))
+    rc, out = sh("cargo nextest run --workspace --no-fail-fast --offline 2>&1 | tail -600")
+    m = re.search(r"(\d+) tests run: (\d+) passed[^,]*, (\d+) failed", out)
+    fails = sorted(set("%s::%s" % (a, b) for a, b in
+                       re.findall(r"^\s+(?:FAIL|TIMEOUT|SIGABRT|SIGSEGV|LEAK-FAIL)\s+\[[^\]]*\]\s+(?:\(\S+\)\s+)?(\S+) (\S+)", out, re.M)))
     return (int(m.group(2)), int(m.group(3))) if m else None, fails, out[-600:]
 
 
@@ -46,7 +47,10 @@ finally:
     sh("git apply -R --whitespace=nowarn seed_out/%s/patch.diff" % pid)
 res["demo_without_patch_tail"] = out0[-400:]
 n_nondemo_fail = len(res.get("baseline_fail_names", []))
-res["confirmed"] = bool(res["patch_applies"] and rc0 == 0 and res.get("demo_with_patch_rc", 0) != 0 and n_nondemo_fail == 25)
+broken = sorted(set(res.get("baseline_fail_names", [])) & set(stable["stable_pass"]))
+res["stable_tests_broken_by_patch"] = broken
+res["confirmed"] = bool(res["patch_applies"] and rc0 == 0 and res.get("demo_with_patch_rc", 0) != 0
+                        and res.get("baseline_with_patch") is not None and not broken)
 dst = os.path.join("/verif/seeded", pid)
 os.makedirs(dst, exist_ok=True)
 for f in os.listdir(src):
